@@ -1,7 +1,7 @@
 """C05 -- PMux feeds from exactly the first live input, and is reported so.
 Engine E1-mux: muxes with 1..k inputs x every input kind (own source / own source+converter / switch off a shared source)
 x every live/dead cause per input (0 V source, phase-inactive source, phase-inactive regulator/switch upstream) x scalar or per-input rs
-x rails on/off x attachment by name or by rail; two phases so that every case shows two live/dead patterns."""
+x rails on/off x attachment by name or by rail x the mux itself active in one phase only; two phases so that every case shows two live/dead patterns."""
 import itertools
 from ..common import Run, Res, seed
 from ..sysmodel import resolve, g
@@ -14,7 +14,7 @@ PROP = "C05"
 def check_case(case):
     res = Res()
     inputs = [tuple(x) for x in case["inputs"]]
-    spec = mux_spec(inputs, case["pal"], case["rs_list"], case["rails"], case["by_rail"], pol=case.get("pol", 1))
+    spec = mux_spec(inputs, case["pal"], case["rs_list"], case["rails"], case["by_rail"], pol=case.get("pol", 1), mux_pc=case.get("mux_pc"))
     s, obs = phys.solve_and_check(res, spec, ("C05", "C01", "C04"))
     if obs is None:
         return res
@@ -51,6 +51,9 @@ def gen_cases(tier):
             for rs_list, rails, by_rail in forms:
                 yield dict(inputs=[list(x) for x in inputs], pal=pal, rs_list=rs_list, rails=rails, by_rail=by_rail,
                            pol=-1 if (k == 2 and rs_list) else 1)
+            if k <= 3:  # the mux itself sleeping in one phase (draws iis from the SELECTED input) / active in the other
+                for mpc in (["a"], ["b"]):
+                    yield dict(inputs=[list(x) for x in inputs], pal=pal, rs_list=True, rails=False, by_rail=False, pol=1, mux_pc=mpc)
 
 
 def replay(doc):
